@@ -65,6 +65,12 @@ def DFW():
     return pl.DataFrame({"a": [LONG.replace("D0", f"D{r}") for r in range(4)], "b": [f"D{r}.1" for r in range(4)]})
 
 
+def DF5():
+    import polars as pl
+
+    return pl.DataFrame({"a": [f"D{r}.0" for r in range(5)], "b": [1, 2, 3, 4, 5], "c": [f"D{r}.2" for r in range(5)]})
+
+
 def DF3R():
     import polars as pl
 
@@ -81,6 +87,12 @@ def mk_shared():
         "sub": rtf.RTFSubline(text="S0"),
         "fn": rtf.RTFFootnote(text="F0"),
         "df": DF2(),
+        # second sharing group (POOL2): a body whose borders are given as full rows x cols grids, a footnote and a
+        # last-section body that several documents (one of which fails to encode) hold by reference
+        "gbody": rtf.RTFBody(border_bottom=[["", "dashed"], ["dotted", ""], ["", ""], ["", ""]],
+                             border_top=[["", ""], ["", "dotted"], ["dashed", ""], ["", ""]]),
+        "fn2": rtf.RTFFootnote(text="F0"),
+        "lastbody": rtf.RTFBody(),
     }
 
 
@@ -125,13 +137,29 @@ def _pool():
                                           rtf_subline=sh["sub"], rtf_footnote=sh["fn"], rtf_title=rtf.RTFTitle(text="T0")),
         # shC holds the same body/header objects but its table has ONE column
         "shC": lambda sh: rtf.RTFDocument(df=DF1(), rtf_body=sh["body"], rtf_column_header=[sh["header"]], rtf_page=sh["page"]),
+        # POOL2 -- gA/gB/gC share one grid-bordered body; the closing border belongs on the last data row (gA), on the
+        # footnote row (gB), nowhere (gC: page/body closing styles empty)
+        "gA": lambda sh: rtf.RTFDocument(df=DF2(), rtf_body=sh["gbody"]),
+        "gB": lambda sh: rtf.RTFDocument(df=DF2(), rtf_body=sh["gbody"], rtf_footnote=sh["fn2"]),
+        "gC": lambda sh: rtf.RTFDocument(df=DF2(), rtf_body=sh["gbody"], rtf_page=rtf.RTFPage(border_last="", border_first="")),
+        # mBad / mOk are multi-section documents holding fn2 and lastbody; mBad fails inside its first section
+        # (non-contiguous group_by keys; construction succeeds); mT is a single table on the same last-section body
+        "mBad": lambda sh: rtf.RTFDocument(df=[DFG(bad=True), DF3R()], rtf_body=[rtf.RTFBody(group_by=["k"]), sh["lastbody"]]),
+        "mBadF": lambda sh: rtf.RTFDocument(df=[DFG(bad=True), DF3R()], rtf_body=[rtf.RTFBody(group_by=["k"]), rtf.RTFBody()], rtf_footnote=sh["fn2"]),
+        # gD: the shared footnote is followed by a table source, so the footnote row is NOT the closing row
+        "gD": lambda sh: rtf.RTFDocument(df=DF2(), rtf_footnote=sh["fn2"], rtf_source=rtf.RTFSource(text="Z0", as_table=True)),
+        "mOk": lambda sh: rtf.RTFDocument(df=[DFG(), DF3R()], rtf_body=[rtf.RTFBody(group_by=["k"]), sh["lastbody"]], rtf_footnote=sh["fn2"]),
+        "mT": lambda sh: rtf.RTFDocument(df=DF5(), rtf_body=sh["lastbody"]),
     }
 
 
 POOL_NAMES = ["plain", "red", "paged", "fnall", "grouped", "bad", "late", "multi", "multiw", "narrow", "wide", "figure", "shA", "shB", "shC"]
+POOL2_NAMES = ["gA", "gB", "gC", "gD", "mBad", "mBadF", "mOk", "mT"]
+ALL_NAMES = POOL_NAMES + POOL2_NAMES
 SHARES = {"shA": ("body", "header", "page", "sub", "fn", "df"), "shB": ("body", "header", "page", "sub", "fn", "df"),
-          "shC": ("body", "header", "page")}
-NCOLS = {"shA": 2, "shB": 2, "shC": 1}
+          "shC": ("body", "header", "page"),
+          "gA": ("gbody",), "gB": ("gbody", "fn2"), "gC": ("gbody",), "gD": ("fn2",), "mBad": ("lastbody",), "mBadF": ("fn2",), "mOk": ("fn2", "lastbody"), "mT": ("lastbody",)}
+NCOLS = {"shA": 2, "shB": 2, "shC": 1, "gA": 2, "gB": 2, "gC": 2, "gD": 2, "mBad": 3, "mBadF": 3, "mOk": 3, "mT": 3}
 
 
 def construct(name, shared):
